@@ -1,12 +1,14 @@
 import Mathlib.Analysis.InnerProductSpace.Calculus
 import Mathlib.Analysis.SpecialFunctions.Sqrt
 import Mathlib.Analysis.InnerProductSpace.PiL2
+import Mathlib.Analysis.Calculus.Deriv.Inv
 /-!
 # C19 calculus: the real-valued models of the power constraints and of the analog channels (fixed
 noise realisation) are differentiable in their input
 -/
 namespace DiffProofs
 open Real
+open scoped RealInnerProductSpace
 
 variable {n : ℕ}
 
@@ -62,4 +64,49 @@ theorem awgn_snr_differentiableAt (z x : EuclideanSpace ℝ (Fin n)) (m : ℕ) (
     normsq_div_differentiableAt _ x
   have h2 := h1.sqrt (ne_of_gt (div_pos hn (mul_pos hm' hs)))
   exact differentiableAt_id.add (h2.smul_const z)
+/-- the scalar factor as a function of the squared norm -/
+theorem factor_hasDerivAt (P ε c : ℝ) (hP : 0 < P) (hc : 0 < c + ε) :
+    HasDerivAt (fun c => Real.sqrt (P / (c + ε))) (-(Real.sqrt (P / (c + ε)) / (2 * (c + ε)))) c := by
+  have h1 : HasDerivAt (fun c => c + ε) 1 c := (hasDerivAt_id c).add_const ε
+  have h2 : HasDerivAt (fun c => P / (c + ε)) (-(P / (c + ε) ^ 2)) c := by
+    have := (h1.inv (ne_of_gt hc)).const_mul P
+    have e1 : (fun c => P / (c + ε)) = fun y => P * (fun c => c + ε)⁻¹ y := by
+      funext y; simp [div_eq_mul_inv]
+    have e2 : -(P / (c + ε) ^ 2) = P * (-1 / (c + ε) ^ 2) := by ring
+    rw [e1, e2]; exact this
+  have hpos : 0 < P / (c + ε) := div_pos hP hc
+  have h3 := h2.sqrt (ne_of_gt hpos)
+  convert h3 using 1
+  have hne : c + ε ≠ 0 := ne_of_gt hc
+  set s := Real.sqrt (P / (c + ε)) with hsdef
+  have hs : s ≠ 0 := ne_of_gt (Real.sqrt_pos.mpr hpos)
+  have hsq : s * s = P / (c + ε) := Real.mul_self_sqrt (le_of_lt hpos)
+  have hP' : P / (c + ε) ^ 2 = s * s / (c + ε) := by rw [hsq]; field_simp
+  rw [hP']
+  field_simp
+
+/-- **closed-form derivative of the total-power normalisation** `f(x) = sqrt(P/(‖x‖²+ε)) • x`:
+`Df(x)·v = s·v − (s/(‖x‖²+ε))·⟪x,v⟫·x` with `s = sqrt(P/(‖x‖²+ε))` -/
+theorem total_power_hasFDerivAt (P ε : ℝ) (hP : 0 < P) (hε : 0 < ε) (x : EuclideanSpace ℝ (Fin n)) :
+    HasFDerivAt (fun x : EuclideanSpace ℝ (Fin n) => Real.sqrt (P / (‖x‖ ^ 2 + ε)) • x)
+      (Real.sqrt (P / (‖x‖ ^ 2 + ε)) • ContinuousLinearMap.id ℝ _ +
+        ((-(Real.sqrt (P / (‖x‖ ^ 2 + ε)) / (2 * (‖x‖ ^ 2 + ε)))) • (2 • innerSL ℝ x)).smulRight x) x := by
+  have hc : 0 < ‖x‖ ^ 2 + ε := by positivity
+  have hg := (factor_hasDerivAt P ε (‖x‖ ^ 2) hP hc).comp_hasFDerivAt x (hasStrictFDerivAt_norm_sq x).hasFDerivAt
+  exact hg.smul (hasFDerivAt_id x)
+
+/-- the derivative applied to a direction: `Df(x)·v = s·v − (s/(‖x‖²+ε))·⟪x,v⟫·x` -/
+theorem total_power_fderiv_apply (P ε : ℝ) (x v : EuclideanSpace ℝ (Fin n)) :
+    (Real.sqrt (P / (‖x‖ ^ 2 + ε)) • ContinuousLinearMap.id ℝ (EuclideanSpace ℝ (Fin n)) +
+        ((-(Real.sqrt (P / (‖x‖ ^ 2 + ε)) / (2 * (‖x‖ ^ 2 + ε)))) • (2 • innerSL ℝ x)).smulRight x :
+          EuclideanSpace ℝ (Fin n) →L[ℝ] EuclideanSpace ℝ (Fin n)) v =
+      Real.sqrt (P / (‖x‖ ^ 2 + ε)) • v - (Real.sqrt (P / (‖x‖ ^ 2 + ε)) / (‖x‖ ^ 2 + ε) * (inner ℝ x v)) • x := by
+  simp only [add_apply, smul_apply, ContinuousLinearMap.id_apply,
+    ContinuousLinearMap.smulRight_apply, innerSL_apply_apply, smul_eq_mul, nsmul_eq_mul, Nat.cast_ofNat]
+  rw [sub_eq_add_neg, ← neg_smul]
+  congr 2
+  by_cases h : ‖x‖ ^ 2 + ε = 0
+  · simp [h]
+  · field_simp
+
 end DiffProofs
